@@ -652,13 +652,14 @@ def msm_header_bits(g, number):
 class C10(Prop):
     id = "C10"
     module = "C10"
-    theorems = ["C10_rejects", "C10_sat_mask_bits", "C10_mask_offsets", "C10_masks", "C10_rows", "C10_decode_ids", "C10_decode_cells"]
+    theorems = ["C10_rejects", "C10_sat_mask_bits", "C10_mask_offsets", "C10_masks", "C10_rows", "C10_decode_ids", "C10_decode_cells", "C10_msm_specs_ok", "C10_segment_decodes"]
     partial_note = ("partial: everything the MSM encoder accepts satisfies the property's preconditions; for every accepted input in any caller order the three masks are written first "
                     "(64 + 32 + |G|x|S| bits), the satellite mask has exactly the listed satellites' bits (= the satellites of the cells), the signal mask exactly the cells' signal "
                     "identifiers, and the cell mask exactly the bits at each cell's row-major index (rank of satellite x number of signals + rank of signal), no two cells on one index; "
                     "mask offsets 73/137/169 for all 49 layouts (table obligation); the rows the encoder writes are a permutation of the caller's rows sorted by ascending satellite / "
                     "(satellite, signal identifier), the same list for every arrangement of the input (order independence); the decoder reads identifiers of set mask bits in strictly ascending order and the cells in row-major "
-                    "order. That decoding an encoded segment rebuilds the same sets and row contents (the composition of the two halves) is covered by the "
+                    "order; every non-empty segment the encoder accepts decodes without error, with the same masks, the listed satellites ascending, exactly the encoder's cells and as many rows as "
+                    "given, consuming exactly the bits written. That the decoded row contents are the encoded ones in normal form (column-wise field round trip) is covered by the "
                     "ROUNDTRIP correspondence and the probe that recomputes masks and rows independently")
     table_obligations = ["msm_mask_offsets", "sig_tables_ok"]
     rule = ("ROUNDTRIP of MSM messages of all 49 types: admissible (S, G, C) with random permutations of the satellite and cell lists, up to 64 cells, and one generator per "
